@@ -50,11 +50,16 @@ def obs_fuzzy(e, n):
     return out
 
 
-def run_batch(desc, rows, how):
+def run_batch(desc, rows, how, first=None):
     e = G.build(desc)
     n = len(rows)
     try:
         with np.errstate(all="ignore"):
+            if first:
+                # an earlier call on the same engine (no restart in between): its last values are the starting state
+                for j, iv in enumerate(e.input_variables):
+                    iv.value = np.array([r[j] for r in first], dtype=float)
+                e.process()
             if how == "arrays":
                 for j, iv in enumerate(e.input_variables):
                     iv.value = np.array([r[j] for r in rows], dtype=float)
@@ -69,9 +74,14 @@ def run_batch(desc, rows, how):
         return {"error": type(ex).__name__, "msg": str(ex)[:200]}
 
 
-def run_rows(desc, rows):
+def run_rows(desc, rows, first=None):
     e = G.build(desc)
     values, fuzzy = [], []
+    for r in (first or []):
+        with np.errstate(all="ignore"):
+            for iv, v in zip(e.input_variables, r):
+                iv.value = float(v)
+            e.process()
     for r in rows:
         try:
             with np.errstate(all="ignore"):
@@ -105,6 +115,18 @@ def key(case):
 
 def oracle(case):
     desc, rows = case["engine"], case["rows"]
+    if case.get("first"):
+        # two successive calls: the second batch continues from the state the first one left
+        try:
+            a2 = run_batch(desc, rows, "arrays", first=case["first"])
+            m2 = run_batch(desc, rows, "matrix", first=case["first"])
+            r2 = run_rows(desc, rows, first=case["first"])
+        except Exception as ex:  # noqa: BLE001
+            return True, f"first call raised {type(ex).__name__} (not judged)"
+        for nm, b in (("per-variable arrays", a2), ("input matrix", m2)):
+            ok, d = same_obs(b, r2)
+            if not ok:
+                return False, f"second call after a first batch of {len(case['first'])} rows, {nm} vs row by row: {d}"
     a = run_batch(desc, rows, "arrays")
     m = run_batch(desc, rows, "matrix")
     r = run_rows(desc, rows)
@@ -122,7 +144,16 @@ def gen_cases(ctx):
     for _ in range(ctx.scale(220, 2200)):
         desc = G.gen_engine(rng, activation="general")
         n = rng.choice([1, 1, 2, 3, 4, 5, 8])
-        yield {"engine": desc, "rows": G.gen_rows(rng, desc, n)}
+        case = {"engine": desc, "rows": G.gen_rows(rng, desc, n)}
+        if rng.random() < 0.4:
+            # an earlier call with finite inputs, then a batch that starts with NaN rows (lock-previous / default carry over)
+            case["first"] = G.gen_rows(rng, desc, rng.choice([1, 2, 3]), special=False)
+            k = rng.randint(1, max(1, n - 1))
+            case["rows"] = [[math.nan] * len(desc["inputs"]) for _ in range(k)] + case["rows"][k:]
+            for o in desc["outputs"]:
+                if rng.random() < 0.7:
+                    o["lock_previous"] = True
+        yield case
 
 
 def correspond(ctx):
